@@ -108,6 +108,10 @@ int main(int argc, char **argv) {
               (void)opt.evaluate(x, g0, tc0, rc0); o0 = opt.getOptimalSpline();
               for (int i = 0; i < N; ++i) if (!o0 || !bits_equal(o0->getTimeSegments()[i], map.toTime(x(i)))) { c.st.violate(unit, fmt("after re-initialisation with other durations, evaluate(previous initial guess): duration %d is %.17g, toTime(x_%d) = %.17g (durations %s)", i, o0 ? o0->getTimeSegments()[i] : 0.0, i, map.toTime(x(i)), fmt_vec(T).c_str()), {{"what", "optimizer-decode"}}); return; }
               if (!opt.setInitState(T, P, -2.5, bc)) return; }
+            // ... and for variables BELOW the initial guess: the 1 ms letters then decode to durations under the acceptance limit of
+            // setInitState, which evaluate() must not clamp -- the map alone defines the duration of a decision variable (seeded change C19-m10)
+            { Eigen::VectorXd xl = x, gl; for (int i = 0; i < N; ++i) xl(i) -= 0.0625 * (i + 1); TimeCost tcl; RunCost<1> rcl = RunCost<1>::mode(0); (void)opt.evaluate(xl, gl, tcl, rcl); const auto *ol = opt.getOptimalSpline();
+              for (int i = 0; i < N; ++i) if (!ol || !bits_equal(ol->getTimeSegments()[i], map.toTime(xl(i)))) { c.st.violate(unit, fmt("evaluate(): duration %d is %.17g, toTime(x_%d) = %.17g (variables below the initial guess of durations %s)", i, ol ? ol->getTimeSegments()[i] : 0.0, i, map.toTime(xl(i)), fmt_vec(T).c_str()), {{"what", "optimizer-decode"}}); return; } }
             for (int i = 0; i < N; ++i) x(i) += 0.03125 * (i + 1); TimeCost tc; RunCost<1> rc = RunCost<1>::mode(0); (void)opt.evaluate(x, g, tc, rc); const auto *os = opt.getOptimalSpline();
             for (int i = 0; i < N; ++i) if (!os || !bits_equal(os->getTimeSegments()[i], map.toTime(x(i)))) { c.st.violate(unit, fmt("evaluate(): duration %d is not toTime(x_%d) (durations %s)", i, i, fmt_vec(T).c_str()), {{"what", "optimizer-decode"}}); return; } };
           if (which == 0) { SplineOptimizer<1, CubicSplineND<1>, QuadInvTimeMap> o; run(o, QuadInvTimeMap()); } else { SplineOptimizer<1, CubicSplineND<1>, IdentityTimeMap> o; run(o, IdentityTimeMap()); } }
